@@ -177,6 +177,49 @@ def _reads_shrink(idx):
     return f
 
 
+def _c01_tags(toks, impl):
+    t = ["entry=" + toks[2], "K=" + toks[3], "stranded=" + toks[4], "join=" + toks[5], "reduce=" + toks[6]]
+    nk = 0 if toks[7] == "-" else toks[7].count(",") + 1
+    t.append("kmers=%s" % ("0" if nk == 0 else "1-9" if nk < 10 else "10-49" if nk < 50 else "50+"))
+    if "|" in impl:
+        nodes = impl.split("|")[1]
+        if nodes == "panic":
+            t.append("answer=panic")
+        else:
+            nn = 0 if nodes == "-" else nodes.count(",") + 1
+            t.append("nodes=%s" % ("0" if nn == 0 else "1" if nn == 1 else "2-5" if nn < 6 else "6+"))
+    return t
+
+
+def _c01_nontrivial(toks, impl):
+    # at least two nodes, one of them with at least two k-mers
+    if "|" not in impl:
+        return False
+    nodes = impl.split("|")[1]
+    if nodes in ("panic", "-") or "," not in nodes:
+        return False
+    K = int(toks[3])
+    return any(len(n.split(":")[0]) > K for n in nodes.split(","))
+
+
+def _table_shrink(toks):
+    out = []
+    ents = toks[7].split(",")
+    if len(ents) > 1:
+        for i in range(len(ents)):
+            out.append(toks[:7] + [",".join(ents[:i] + ents[i + 1:])])
+    return out
+
+
+_C01_RULE = ("requests `compress <entry> K stranded join reduce <table>`: k-mer tables produced by the real filter_kmers from the structured "
+             "read-set generator (alphabet 1-4, chunk reuse, s++rc(s), hairpins, tandem repeats, homopolymers, tight cycles, rc/duplicate/SNP/tip "
+             "copies) with thresholds 1-3, pruned with remove_censored_exts when the threshold rejects k-mers (otherwise half of the time); 5% with "
+             "one extension bit flipped (non-reciprocal: panic branch compared with the model only), 5% with one k-mer dropped unpruned "
+             "(dangling extensions); entry points from-hash / from-slice / no-exts; K in {4,5,6,8,12,16,31,32} with 60% K<=8 (thorough: all 17 "
+             "types); stranded 1/3; join always|payload-equality (colour = label set); reduce saturating-sum|max|non-commutative mix. The "
+             "hash map's index order is read back from the implementation and handed to the model. Non-trivial = at least two nodes, one "
+             "with >= 2 k-mers.")
+
 PROPS = {
     "C07": {
         "lean_modules": ["Dbg.Props.C07"],
@@ -339,8 +382,9 @@ PROPS = {
     },
     "C05": {
         "lean_modules": ["Dbg.Props.C05"],
-        "theorems": [],
-        "partial": [],
+        "theorems": ["Filter.C05_ranges_tile", "Filter.C05_passes_le", "Filter.C05_count_summary", "Filter.mem_bucketRanges"],
+        "partial": ["C05_filter_eq_ref_full (table and all-k-mers list equal the pass-free reference grouping for every read set and budget): "
+                    "stated, not yet proved; decided on every run by evaluating the reference on the crate's output for pass counts 1..256"],
         "n_quick": 2500, "n_thorough": 150000,
         "nontrivial": lambda toks, impl: impl.startswith("passes=") and impl.split("|")[1].count(",") >= 1, "tags": _c05_tags,
         "shrink": _reads_shrink(10),
@@ -355,5 +399,30 @@ PROPS = {
         "trusted_base": ["BoomHashMap2: exact get after key verification, iteration is a permutation of the inserted triples; "
                          "slice::sort_by_key is stable; itertools group_by groups maximal runs"],
         "assumptions": ["K >= 4 (bucket reads bases 0..3), memory_size >= 1"],
+    },
+    "C01": {
+        "lean_modules": ["Dbg.Props.C01"],
+        "theorems": ["Compress.C01_ids_partition", "Compress.C01_walk_no_panic", "Compress.compress_components_concrete", "Walk.compress_components"],
+        "partial": ["string assembly (windows of the assembled node = keys of the path ids), recorded-steps clause, payload fold, and the equality of "
+                    "compressKmersC's id lists with Walk.compress: not yet proved; partitionOK/stepsOK/payloadOK are evaluated on the crate's nodes"],
+        "n_quick": 3000, "n_thorough": 200000,
+        "nontrivial": _c01_nontrivial, "tags": _c01_tags, "shrink": _table_shrink,
+        "rule": _C01_RULE,
+        "trusted_base": ["BoomHashMap2::get_key_id/get are exact lookups; its index order is an arbitrary permutation (observed, passed to the model)",
+                         "bit_set::BitSet is a set of ids"],
+        "assumptions": ["tables with reciprocal extensions (every table produced from reads; others only compared with the model)"],
+    },
+    "C02": {
+        "lean_modules": ["Dbg.Props.C02"],
+        "theorems": ["Compress.C02_components", "Compress.C02_link_sym", "Compress.linkOf_sym", "Compress.noPanic"],
+        "partial": ["the theorem is about id-nodes of the abstract seed-and-walk loop over linkOf; its transfer to the node *sequences* produced by "
+                    "compressKmersC (string assembly) is not yet proved; componentsOK (union of good links recomputed from the table) is "
+                    "evaluated on the crate's nodes"],
+        "n_quick": 3000, "n_thorough": 200000,
+        "nontrivial": _c01_nontrivial, "tags": _c01_tags, "shrink": _table_shrink,
+        "harness_key": "C02",
+        "rule": _C01_RULE + " C02 is judged on tables whose extensions all resolve (the property's hypothesis).",
+        "trusted_base": ["as C01"],
+        "assumptions": ["join predicate symmetric (both shipped specs are)", "extensions reference only present k-mers"],
     },
 }
